@@ -25,30 +25,32 @@ Section SeqProofs.
   Variable dflt : T.
   Variable teqb : T -> T -> bool.
 
-  Definition seq_wf (s : seq T) : Prop :=
-    (sinit T s = false -> sdata T s = [] /\ ssize T s = 0) /\
-    ((sdata T s = [] /\ ssize T s = 0) \/ ssize T s < length (sdata T s)).
+  Notation seq_wf := (seq_wf T).
 
-  Definition slot0 (d : list T) : T := match nth_error d 0 with Some x => x | None => dflt end.
-  Definition seq_abs (s : seq T) : T * list T := (slot0 (sdata T s), firstn (ssize T s) (skipn 1 (sdata T s))).
+  Notation slot0 := (slot0 T dflt).
+  Notation seq_abs := (seq_abs T dflt).
 
   Lemma seq_slot0_eq : forall s, seq_slot0 T dflt s = slot0 (sdata T s).
   Proof. intros [b [|x d] n]; reflexivity. Qed.
 
   Lemma seq_contents_eq : forall s, seq_wf s -> seq_contents T s = snd (seq_abs s).
   Proof.
-    intros [b d n] [W1 W2]. unfold seq_contents, seq_len, seq_abs; cbn [sinit sdata ssize snd] in *.
+    intros [b d n] [W1 W2]. unfold seq_contents, seq_len, Model.seq_abs; cbn [sinit sdata ssize snd] in *.
     destruct b; [reflexivity|]. destruct (W1 eq_refl) as [-> ->]. reflexivity.
   Qed.
 
   Lemma seq_len_eq : forall s, seq_wf s -> seq_len T s = length (snd (seq_abs s)).
   Proof.
-    intros [b d n] [W1 W2]. unfold seq_len, seq_abs; cbn [sinit sdata ssize snd] in *.
+    intros [b d n] [W1 W2]. unfold seq_len, Model.seq_abs; cbn [sinit sdata ssize snd] in *.
     rewrite firstn_length, skipn_length.
     destruct b.
     - destruct W2 as [[-> ->]|W2]; cbn; lia.
     - destruct (W1 eq_refl) as [-> ->]. reflexivity.
   Qed.
+
+  Lemma seq_observers : forall s, seq_wf s ->
+    seq_contents T s = snd (seq_abs s) /\ seq_len T s = length (snd (seq_abs s)) /\ seq_slot0 T dflt s = fst (seq_abs s).
+  Proof. intros. split; [apply seq_contents_eq; assumption|]. split; [apply seq_len_eq; assumption|apply seq_slot0_eq]. Qed.
 
   Lemma seq_init_wf : forall s, seq_wf s -> seq_init T s = mkseq T true (sdata T s) (ssize T s).
   Proof.
@@ -96,7 +98,7 @@ Section SeqProofs.
     destruct (p a); auto; destruct (sset j a d); cbn; auto.
   Qed.
 
-  Ltac abs_simpl := unfold seq_abs, slot0, l_insert, l_remove, l_assign, l_resize; cbn [sdata ssize sinit fst snd].
+  Ltac abs_simpl := unfold Model.seq_abs, Model.slot0, l_insert, l_remove, l_assign, l_resize; cbn [sdata ssize sinit fst snd].
   Ltac wf_cases W := destruct W as [W1 [[Wd Wn]|W2]]; cbn [sinit sdata ssize] in *; [subst|].
 
   (* ---------------- push *)
@@ -127,7 +129,7 @@ Section SeqProofs.
     | None => seq_pop T s = Trap TrapPopEmpty
     end.
   Proof.
-    intros [b d n] W. unfold seq_abs; cbn [sdata ssize fst snd]. rewrite (abs_len b d n W).
+    intros [b d n] W. unfold Model.seq_abs; cbn [sdata ssize fst snd]. rewrite (abs_len b d n W).
     unfold seq_pop; cbn [sinit sdata ssize].
     destruct (Nat.eqb_spec n 0) as [->|E].
     - rewrite orb_true_r. cbn. reflexivity.
@@ -147,7 +149,7 @@ Section SeqProofs.
                     seq_abs s' = (fst (seq_abs s), l_insert T (pos - 1) x (snd (seq_abs s))).
   Proof.
     intros pos x s W. unfold seq_insert. rewrite seq_init_wf by assumption. destruct s as [b d n].
-    unfold seq_abs; cbn [sdata ssize sinit fst snd]. rewrite (abs_len b d n W).
+    unfold Model.seq_abs; cbn [sdata ssize sinit fst snd]. rewrite (abs_len b d n W).
     destruct ((pos =? 0) || (n + 1 <? pos)) eqn:G; [reflexivity|].
     apply orb_false_iff in G. destruct G as [G1 G2]. apply Nat.eqb_neq in G1. apply Nat.ltb_ge in G2.
     unfold seq_capn; cbn [sdata].
@@ -190,7 +192,7 @@ Section SeqProofs.
     | None => seq_remove T pos s = Trap TrapPos
     end.
   Proof.
-    intros pos [b d n] W. unfold seq_abs; cbn [sdata ssize fst snd]. unfold seq_remove; cbn [sinit sdata ssize].
+    intros pos [b d n] W. unfold Model.seq_abs; cbn [sdata ssize fst snd]. unfold seq_remove; cbn [sinit sdata ssize].
     destruct (Nat.eqb_spec pos 0) as [->|E].
     - rewrite orb_true_r. reflexivity.
     - rewrite nthe_firstn, nthe_skipn. replace (1 + (pos - 1)) with pos by lia.
@@ -224,7 +226,7 @@ Section SeqProofs.
     destruct (sinit T s) eqn:Ei; cbn [negb].
     - assert (ssize T s = 0 /\ sdata T s = [] \/ 1 + ssize T s <= length (sdata T s)) as [[Hn Hd]|Hb].
       { destruct s as [b d n]. wf_cases W; cbn; [left; auto|right; lia]. }
-      { unfold seq_abs. rewrite Hn, Hd. cbn. reflexivity. }
+      { unfold Model.seq_abs. rewrite Hn, Hd. cbn. reflexivity. }
       rewrite seq_scan_vec, vec_scan_ok by assumption.
       change (firstn (ssize T s) (skipn 1 (sdata T s))) with (snd (seq_abs s)).
       destruct (l_index T teqb x (snd (seq_abs s))) as [i|] eqn:E; cbn [option_map rbind Nat.add]; [|reflexivity].
@@ -234,7 +236,7 @@ Section SeqProofs.
       destruct (nth_error (snd (seq_abs s)) i) eqn:En.
       + destruct R as (s' & -> & W' & C'). cbn [rbind fst]. eauto.
       + apply nth_error_None in En. lia.
-    - destruct W as [W1 _]. destruct (W1 Ei) as [Hd Hn]. unfold seq_abs. rewrite Hd, Hn. reflexivity.
+    - destruct W as [W1 _]. destruct (W1 Ei) as [Hd Hn]. unfold Model.seq_abs. rewrite Hd, Hn. reflexivity.
   Qed.
 
   (* ---------------- removeif *)
@@ -267,7 +269,7 @@ Section SeqProofs.
             - rewrite Hp by lia. pw.
             - symmetry. apply nthe_beyond. lia. }
     - eexists; split; [reflexivity|]. split; [assumption|].
-      destruct W as [W1 _]. destruct (W1 Ei) as [Hd Hn]. unfold seq_abs. rewrite Hd, Hn. reflexivity.
+      destruct W as [W1 _]. destruct (W1 Ei) as [Hd Hn]. unfold Model.seq_abs. rewrite Hd, Hn. reflexivity.
   Qed.
 
   (* ---------------- reserve / resize / clear / copy *)
@@ -306,7 +308,7 @@ Section SeqProofs.
     intros n' s W. unfold seq_resize.
     destruct (seq_reserve_ok n' s W) as (k & -> & Hk). cbn [rbind sdata ssize].
     destruct s as [b d n]. cbn [sdata ssize] in *.
-    unfold seq_abs at 2 3; cbn [sdata ssize fst snd]. unfold l_resize. rewrite (abs_len b d n W).
+    unfold Model.seq_abs at 2 3; cbn [sdata ssize fst snd]. unfold l_resize. rewrite (abs_len b d n W).
     destruct (Nat.ltb_spec n n').
     - rewrite sfill_ok by len_side. cbn [rbind]. eexists; split; [reflexivity|]. split.
       + split; cbn [sinit sdata ssize]; [discriminate|]. right. len_side.
@@ -402,7 +404,7 @@ Section SeqProofs.
       destruct (Nat.eqb_spec 0 (n + 1)); [lia|].
       assert (x = slot0 d) as ->.
       { assert (fst (seq_abs s') = slot0 d) by (rewrite A'; reflexivity).
-        unfold seq_abs, slot0 in H0; cbn [fst] in H0. rewrite Hn in H0. exact H0. }
+        unfold Model.seq_abs, Model.slot0 in H0; cbn [fst] in H0. rewrite Hn in H0. exact H0. }
       eexists; split; [reflexivity|]. split; [eauto|]. split; [assumption|]. rewrite A'. reflexivity.
     - destruct (Nat.eqb_spec pos (n + 1)) as [->|E1].
       + destruct (Nat.ltb_spec (n + 1) (n + 1)); [lia|]. destruct A as (s' & -> & W' & I' & L' & A'). cbn [rbind].
@@ -411,7 +413,7 @@ Section SeqProofs.
         { assert (nth_error (snd (seq_abs s')) n = Some dflt) as Hx.
           { rewrite A'. cbn [snd]. rewrite nthe_app, (abs_len b d n W).
             destruct (Nat.ltb_spec n n); [lia|]. rewrite Nat.sub_diag. reflexivity. }
-          unfold seq_abs in Hx; cbn [snd] in Hx. rewrite nthe_firstn, nthe_skipn in Hx.
+          unfold Model.seq_abs in Hx; cbn [snd] in Hx. rewrite nthe_firstn, nthe_skipn in Hx.
           destruct (n <? ssize T s'); [|discriminate].
           replace (1 + n) with (n + 1) in Hx by lia. congruence. }
         eexists; split; [reflexivity|]. split; [eauto|]. split; [assumption|]. rewrite A'. reflexivity.
@@ -421,7 +423,7 @@ Section SeqProofs.
           destruct (sget_ok T pos (sdata T s') L') as (x & Hg & Hn). rewrite Hg. cbn [rbind].
           assert (nth_error d pos = Some x) as ->.
           { assert (nth_error (snd (seq_abs s')) (pos - 1) = nth_error (firstn n (skipn 1 d)) (pos - 1)) as Hx by (rewrite A'; reflexivity).
-            unfold seq_abs in Hx; cbn [snd] in Hx. rewrite !nthe_firstn, !nthe_skipn in Hx.
+            unfold Model.seq_abs in Hx; cbn [snd] in Hx. rewrite !nthe_firstn, !nthe_skipn in Hx.
             replace (1 + (pos - 1)) with pos in Hx by lia.
             destruct (Nat.ltb_spec (pos - 1) n); [|lia].
             destruct (pos - 1 <? ssize T s') eqn:Q.
@@ -499,7 +501,7 @@ Section SeqProofs.
     cbn [length] in Hk. rewrite fill_from_ok by (rewrite repeat_length; lia). cbn [rbind].
     eexists; split; [reflexivity|]. split.
     - split; cbn [sinit sdata ssize]; [discriminate|]. right. rewrite length_overwrite; rewrite repeat_length; lia.
-    - unfold seq_abs, slot0; cbn [sdata ssize]. f_equal.
+    - unfold Model.seq_abs, Model.slot0; cbn [sdata ssize]. f_equal.
       + rewrite nthe_overwrite_in by (rewrite repeat_length; lia). rewrite nthe_repeat.
         destruct (Nat.ltb_spec 0 1); [|lia]. destruct (Nat.ltb_spec 0 k); [reflexivity|lia].
       + apply nth_error_ext; intro j. rewrite nthe_firstn, nthe_skipn.
@@ -591,16 +593,8 @@ Section SeqProofs.
       + rewrite P. reflexivity.
   Qed.
 
-  Fixpoint seq_run (ops : list (cop T)) (s : seq T) : res (seq T * list (cret T)) :=
-    match ops with
-    | [] => Ok (s, [])
-    | o :: tl => p <- seq_step T dflt teqb o s ;; q <- seq_run tl (fst p) ;; Ok (fst q, snd p :: snd q)
-    end.
-  Fixpoint sq_run (ops : list (cop T)) (st : T * list T) : res ((T * list T) * list (cret T)) :=
-    match ops with
-    | [] => Ok (st, [])
-    | o :: tl => p <- sq_step T dflt teqb o st ;; q <- sq_run tl (fst p) ;; Ok (fst q, snd p :: snd q)
-    end.
+  Notation seq_run := (seq_run T dflt teqb).
+  Notation sq_run := (sq_run T dflt teqb).
 
   Theorem seq_run_refines : forall ops s, seq_wf s ->
     match sq_run ops (seq_abs s) with
@@ -608,7 +602,7 @@ Section SeqProofs.
     | Trap t => seq_run ops s = Trap t
     end.
   Proof.
-    induction ops as [|o tl IH]; intros s W; cbn [sq_run seq_run].
+    induction ops as [|o tl IH]; intros s W; cbn [Model.sq_run Model.seq_run].
     - eauto.
     - pose proof (seq_step_refines o s W) as S. unfold seq_refines in S.
       destruct (sq_step T dflt teqb o (seq_abs s)) as [[l1 r1]|t]; cbn [rbind fst snd].
